@@ -124,7 +124,7 @@ let () =
                   Printf.sprintf "E ok n=%d cap=%d [%s] cb=%s" (List.length act) (int_of_nat st'.e_cap) (act_string_ordered act) (log_string log)
               | Rejected ->
                   (* the batch hit a violated precondition: show what was polled, the side is dead *)
-                  let s = (match ep_step st (Poll (ready, ch)) with
+                  let s = (match ep_step_current st (Poll (ready, ch)) with
                     | Ok (st', act) -> Printf.sprintf "E rejected n=%d cap=%d [%s]" (List.length act) (int_of_nat st'.e_cap) (act_string_ordered act)
                     | _ -> "E rejected") in
                   e := None; s
@@ -149,7 +149,7 @@ let () =
         let env = cat (List.map (fun (k,b) -> soi k ^ ":" ^ soi b) (List.sort compare (List.filter (fun (_,b) -> b <> 0) rd))) in
         let es = (match !e with None -> "E dead [] cb=" | Some st ->
           let full = ep_full st ready in
-          (match ep_step st (Poll (ready, [])) with
+          (match ep_step_current st (Poll (ready, [])) with
            | Ok (st', act) -> e := Some st';
                Printf.sprintf "E n=%d cap=%d [%s] cb=%s" (List.length act) (int_of_nat st'.e_cap) (act_string full) (cb_string runs full)
            | Rejected -> "E rejected"
@@ -187,7 +187,7 @@ let () =
            if c < 0 || c >= maxch then (print_string "invalid\n"; bad := true) else begin
            hic := max !hic (c + 1);
            (* the two sides are independent; a precondition violation rejects on both *)
-           let re = (match !e with None -> `Dead | Some st -> (match ep_step st o with
+           let re = (match !e with None -> `Dead | Some st -> (match ep_step_current st o with
                | Ok (st', _) -> `Ok (Some st') | Rejected -> `Rej | Fault -> `Fault)) in
            let rp = (match !p with None -> `Dead | Some st -> (match pp_step_current st o with
                | Ok (st', _) -> `Ok st' | Rejected -> `Rej | Fault -> `Fault)) in
